@@ -138,6 +138,39 @@ def run(rep, tier):
               "ReadData resizes the target to (%s) (R, C = the extent read from the dataset's dataspace: %s)" % (r_.get("resize"), r_.get("extent_src")), rm.loc())
     rep.check(w_.get("extent") == "list(R, C)", "R17.3", "writer-extent", "writer stores (rows, cols)", "WriteData creates the dataset with extent %s" % w_.get("extent"), wm.loc())
 
+    # reader-target-reset: every container reader fixes the size of its target from the stored extent (resize / clear / assign / operator=)
+    # on every path to a normal return - a reader that returns early for an empty dataset, or appends, hands back what the target held before
+    n_rt = 0
+    seen_kinds = set()
+    for f_ in F.funcs:
+        if f_.qname != R + "::ReadData" or f_.j["template"] == "pattern" or len(f_.j["params"]) < 2:
+            continue
+        kind = kind_of(f_.j["sig"])
+        if kind not in ("matrix", "vector", "string-list", "Vector3d-list") or kind in seen_kinds:
+            continue
+        seen_kinds.add(kind)
+        tgt = f_.j["params"][1]["name"]
+        g_ = CFG(f_)
+        rep.analysed(f_)
+        def on_target(n):
+            o = n.get("obj")
+            while isinstance(o, dict) and o.get("k") in ("mcall", "paren", "cast", "implicit") and "derived" in show(o):
+                o = o.get("obj") or (o.get("args") or [None])[0] or o.get("sub")
+            return nows(show(n.get("obj") or {})).replace(".derived()", "") == tgt
+        resets = [n for n in f_.walk() if n.get("k") == "mcall" and re.search(r"::(resize|clear|assign|operator=)$", n.get("callee") or "") and on_target(n)]
+        resets += [n for n in f_.walk() if n.get("k") in ("opcall", "binop") and n.get("op") == "=" and nows(show((n.get("args") or [n.get("lhs")])[0] or {})) == tgt]
+        resets = [n for n in resets if n["id"] in g_.where]
+        exits = g_.exit_blocks(normal=True)
+        reach = g_.reachable_blocks()
+        bad = [b for b in exits if b in reach and not any(g_.where[n["id"]][0] == b or g_.dominates_block(g_.where[n["id"]][0], b) for n in resets)]
+        n_rt += 1
+        rep.check(bool(resets) and not bad, "R17.3", "reader-target-reset|" + kind, "the target's size is set from the stored extent before every normal return (%s)" %
+                  ", ".join(sorted({(n.get("callee") or "=").split("::")[-1] for n in resets})),
+                  "CheckpointReader::ReadData(%s): %s - a target that already holds data (an object loaded twice) keeps stale elements, so the value read is not the value stored"
+                  % (kind, ("the target '%s' is never resized, cleared or assigned (elements are appended)" % tgt) if not resets else
+                     "a normal return is reachable without passing the resize/clear of '%s' (early return for an empty dataset)" % tgt), f_.loc(), sample=(kind == "vector"))
+    rep.floor("R17.3", n_rt, 4, "container readers (matrix, vector<T>, vector<string>, vector<Vector3d>)")
+
     # ---------------------------------------------------------------- R17.4
     n_ops = 0
     for cls in (W, R):
